@@ -74,6 +74,17 @@ def judge_obs(ctx, obs, tag):
         st["skipped"][k] = st["skipped"].get(k, 0) + v
     wit = ctx.tlc_trace("SaveIO_Trace.tla", "SaveIO_Trace.cfg", obs, tag)
     mach = [w for w in wit if w["sig"][0] == "MACH"]
+    # an obstacle in front of the target (an existing read-only file) stops an implementation that opens the target for writing;
+    # one that writes elsewhere and renames is not stopped by it.  Saving successfully - completely and faithfully, which is what
+    # this witness says - is then simply a save without a fault, not a failure of the machinery.
+    soft = [w for w in mach if w["sig"][1] == "fault-not-injected" and w["sig"][2] in ("rofile",)]
+    if soft:
+        ctx.extra_cov.setdefault("obstacle_did_not_stop_save", [])
+        for w in soft:
+            if w["sig"][2] not in ctx.extra_cov["obstacle_did_not_stop_save"]:
+                ctx.extra_cov["obstacle_did_not_stop_save"].append(w["sig"][2])
+    mach = [w for w in mach if w not in soft]
+    wit = [w for w in wit if w not in soft]
     if mach:
         raise vlib.Machinery("the fault model did not behave as assumed (not a verdict): %s" % [w["sig"] for w in mach])
     return wit
